@@ -921,6 +921,11 @@ func (t *TBtree) readInnerNodeFrom(r *appendable.Reader) (*innerNode, error) {
 		return nil, err
 	}
 
+	if childCount == 0 {
+		// an inner node has at least one child, lookups and insertions index nodes[0]
+		return nil, ErrCorruptedFile
+	}
+
 	n := &innerNode{
 		t:       t,
 		nodes:   make([]node, childCount),
